@@ -184,11 +184,13 @@ Section WithTerminal.
     | Some r => let '(a, r') := rl_allow r now in (a, mktt (tt_n t) (Some r') (tt_align t) (tt_below t))
     end.
 
-  (* Drawable::draw for a Term/TermLike target: last_line_count is only updated on success *)
+  (* Drawable::draw for a Term/TermLike target: on a failed terminal call last_line_count keeps its
+     old value CAPPED at the terminal height (draw_to_term caps `*bar_count` in place before its first
+     fallible call, fix 7d42cff); it is set to the new count only on success *)
   Definition term_draw (t : ttarget) (ls : list line) (c : N) : ttarget * list termop * N * bool :=
     let '(ops, n', below') := draw_to_term ls (tt_n t) (tt_align t) (tt_below t) W H in
     let '(e, c', ok) := emit c ops in
-    (mktt (if ok then n' else tt_n t) (tt_rl t) (tt_align t) (if ok then below' else tt_below t), e, c', ok).
+    (mktt (if ok then n' else N.min (tt_n t) H) (tt_rl t) (tt_align t) (if ok then below' else tt_below t), e, c', ok).
 
   Definition tt_adjust_clear (t : ttarget) (k : N) : ttarget := mktt (tt_n t + k) (tt_rl t) (tt_align t) (tt_below t).
   Definition tt_adjust_keep (t : ttarget) (k : N) : ttarget := mktt (tt_n t - k) (tt_rl t) (tt_align t) (tt_below t).
